@@ -415,6 +415,10 @@ class C15(Check):
     assumptions = ["handlers do not raise and do not call the protocol's methods recursively (a re-entrant unregister of an "
                    "absent handler is caught inside the handler)",
                    "nobody else monkey-patches the protocol's methods (module docstring)"]
+    technique = ("Lean 4 theorems about a hand-written executable model (induction over operation histories; every handler "
+                 "behaviour as a function of the invocation number, incl. scripted re-entrant requests) + differential "
+                 "correspondence of model and real classes + direct predicate on the implementation's log to find failing inputs")
+    level_note = ("Not covered: handlers that raise or that call the protocol's methods recursively (nested dispatch). ")
     modelled = ["gradysim/protocol/plugin/dispatcher.py"]
     quick_n = 1500
     thorough_n = 40000
@@ -580,11 +584,27 @@ def cmd_obs(c):
         return ["bad-command", type(e).__name__]
 
 
+def chain_probe(plugin):
+    """number of closures the plugin has in the telemetry chain, read from the wrapper's (private) list;
+    None when that representation is not there.  Used for the correspondence only (the model's
+    `registered handler` component), never by the property predicate."""
+    ch = getattr(getattr(plugin, "_dispatcher", None), "_handle_telemetry_chain", None)
+    return len(ch) - 1 if isinstance(ch, list) else None
+
+
 def trip_run_impl(case):
     cfg = case["cfg"]
     src = DrawSource([bitsf(b) for b in case["draws"]], seed=stable_hash("trip-extra", len(case["draws"])))
     provider = RecProvider(0)
     results = []
+    events = []     # chronological: ["cmd", index into provider.mobility] | ["begin", act] | ["end", act, outcome]
+    send = provider.send_mobility_command
+
+    def recording_send(command):
+        events.append(["cmd", len(provider.mobility)])
+        send(command)
+    provider.send_mobility_command = recording_send
+    hooks = 0
     with patched_draws(src):
         proto = _TripProto.instantiate(provider)
         config = RandomMobilityConfig(x_range=(bitsf(cfg["x"][0]), bitsf(cfg["x"][1])),
@@ -592,8 +612,27 @@ def trip_run_impl(case):
                                       z_range=(bitsf(cfg["z"][0]), bitsf(cfg["z"][1])),
                                       tolerance=bitsf(cfg["tol"]))
         plugin = RandomMobilityPlugin(proto, config)
+
+        def make_hook(scripts):
+            """a foreign telemetry handler whose k-th invocation calls the plugin re-entrantly"""
+            state = {"n": 0}
+
+            def hook(instance, telemetry):
+                acts = scripts[state["n"]] if state["n"] < len(scripts) else []
+                state["n"] += 1
+                for a in acts:
+                    events.append(["begin", a])
+                    try:
+                        {"finish": plugin.finish_random_trip, "initiate": plugin.initiate_random_trip,
+                         "travel": plugin.travel_to_random_waypoint}[a]()
+                        events.append(["end", a, "ok"])
+                    except Exception as e:
+                        events.append(["end", a, "crash:" + type(e).__name__])
+                return DispatchReturn.CONTINUE
+            return hook
+
         for op in case["ops"]:
-            n0, own0 = len(provider.mobility), proto.telemetry_calls
+            n0, own0, e0 = len(provider.mobility), proto.telemetry_calls, len(events)
             ret = None
             try:
                 name = op[0]
@@ -612,12 +651,19 @@ def trip_run_impl(case):
                 elif name == "target":
                     t = plugin.current_target
                     ret = None if t is None else v3bits(t)
+                elif name == "hook":
+                    create_dispatcher(proto).register_handle_telemetry(make_hook(op[1]))
+                    hooks += 1
                 else:
                     raise ValueError(f"unknown op {op}")
             except Exception as e:
                 ret = "crash:" + type(e).__name__
-            results.append({"ret": ret, "cmds": [cmd_obs(c) for c in provider.mobility[n0:]],
-                            "own": proto.telemetry_calls - own0})
+            cmds = [cmd_obs(c) for c in provider.mobility[n0:]]
+            h = chain_probe(plugin)
+            res = {"ret": ret, "cmds": cmds, "own": proto.telemetry_calls - own0, "h": None if h is None else h - hooks}
+            if case.get("hooked"):
+                res["events"] = [(["cmd", cmds[e[1] - n0]] if e[0] == "cmd" else e) for e in events[e0:]]
+            results.append(res)
     return {"results": results, "used": len(src.values), "draws": [fbits(v) for v in src.values]}
 
 
@@ -662,6 +708,42 @@ def trip_oracle(case, impl):
         elif name == "travel":
             if len(cmds) != 1 or cmds[0] != ret:
                 fails.append(("C17:returned-differs", f"op {i}: travel returned {ret} but the provider received {cmds}"))
+        elif name == "hook":
+            if cmds:
+                fails.append(("C17:unexpected-command", f"op {i}: registering a foreign handler sent commands"))
+        elif name == "tel" and case.get("hooked"):
+            # foreign handlers may call the plugin re-entrantly: judge every command at its place in the
+            # chronological event log of this dispatch (missed redraws are not judged here)
+            pos = bitsv3(op[1])
+            if res["own"] != 1:
+                fails.append(("C17:own-calls", f"op {i}: the protocol's own handle_telemetry ran {res['own']} times"))
+            inside = None
+            shape = [e[0] if e[0] == "cmd" else e[0] + ":" + e[1] for e in res["events"]]
+            for ev in res["events"]:
+                if ev[0] == "begin":
+                    inside = ev[1]
+                elif ev[0] == "end":
+                    if ev[2] != "ok":
+                        fails.append((f"C17:{ev[2]}", f"op {i}: re-entrant {ev[1]} raised {ev[2][6:]}"))
+                    elif ev[1] == "finish":
+                        ongoing = False
+                    elif ev[1] == "initiate":
+                        ongoing, ever = True, True
+                    inside = None
+                elif ev[0] == "cmd" and ev[1] and ev[1][0] not in ("other", "bad-command"):
+                    p = bitsv3(ev[1])
+                    if inside == "initiate":
+                        target = p
+                    elif inside == "travel":
+                        pass
+                    elif not ongoing:
+                        fails.append(("C17:command-when-idle", f"op {i}: telemetry at {pos}: a goto was sent after the trip "
+                                      f"had been finished from inside the same dispatch (events {shape})"))
+                    else:
+                        if not (target is not None and sqdist(pos, target) <= tol * tol):
+                            fails.append(("C17:spurious-redraw", f"op {i}: telemetry at {pos}, target {target}, tolerance "
+                                          f"{tol}: new waypoint although not arrived (events {shape})"))
+                        target = p
         elif name == "tel":
             pos = bitsv3(op[1])
             if res["own"] != 1:
@@ -813,7 +895,14 @@ def gen_trip(seed, max_ops=40):
             op = [r.choice(["ongoing", "target"])]
         ops.append(op)
         ref.apply(op)
-    return {"kind": "randomtrip",
+    hooked = r.random() < 0.12
+    if hooked:
+        # foreign telemetry handlers that call the plugin from inside a dispatch (no model counterpart)
+        for _ in range(r.choice([1, 1, 2])):
+            scripts = [r.choice([["finish"], ["finish"], [], ["initiate"], ["finish", "initiate"], ["travel"], ["initiate", "finish"]])
+                       for _ in range(r.randint(1, 4))]
+            ops.insert(r.randrange(len(ops) + 1), ["hook", scripts])
+    return {"kind": "randomtrip", **({"hooked": True} if hooked else {}),
             "cfg": {"x": [fbits(cfg["x"][0]), fbits(cfg["x"][1])], "y": [fbits(cfg["y"][0]), fbits(cfg["y"][1])],
                     "z": [fbits(cfg["z"][0]), fbits(cfg["z"][1])], "tol": fbits(cfg["tol"])},
             "draws": [fbits(d) for d in draws], "ops": ops}
@@ -862,6 +951,14 @@ class C17(Check):
                    "sorted bounds)", "0 <= u < 1 for every draw", "IEEE rounding of lo + (hi - lo) * u is not formalised (the "
                    "direct predicate allows 4 ulp at the box faces)",
                    "decisions within rounding distance of the tolerance boundary are generated on the dyadic lattice only"]
+    technique = ("Lean 4 theorems about a hand-written executable model (induction over operation histories; every handler "
+                 "behaviour as a function of the invocation number, incl. scripted re-entrant requests) + differential "
+                 "correspondence of model and real classes + direct predicate on the implementation's log to find failing inputs")
+    level_note = ("The in-box theorem is over the reals (IEEE rounding of lo + (hi - lo) * u trusted); the other theorems hold "
+                  "for every scalar type. The number of trip closures in the dispatcher's telemetry chain (the model's "
+                  "'registered handler' component) is read from the wrapper's private list for the correspondence only, and "
+                  "skipped if that list is not there. Plugin calls made re-entrantly from foreign telemetry handlers are "
+                  "outside the model: ~12% of the generated histories exercise them against the direct predicate only. ")
     modelled = ["gradysim/protocol/plugin/random_mobility.py", "gradysim/protocol/plugin/dispatcher.py",
                 "gradysim/protocol/position.py (squared_distance)"]
     quick_n = 1500
@@ -879,6 +976,8 @@ class C17(Check):
         return trip_run_impl(case)
 
     def model_input(self, case, impl):
+        if case.get("hooked"):
+            return None      # re-entrant plugin calls from foreign handlers: direct predicate only
         # the model is given the very stream the implementation consumed (prescribed prefix first)
         draws = impl["draws"] + case["draws"][len(impl["draws"]):]
         return {"kind": "randomtrip", "cfg": case["cfg"], "draws": draws, "ops": case["ops"]}
@@ -887,6 +986,9 @@ class C17(Check):
         diffs = []
         a = impl["results"]
         b = model["results"]
+        if any(r["h"] is None for r in a):       # the wrapper's chain is not readable: leave it out
+            a = [dict(r, h=None) for r in a]
+            b = [dict(r, h=None) for r in b]
         if a != b:
             diffs.append(first_diff(a, b))
         if impl["used"] != model["used"]:
@@ -905,7 +1007,7 @@ class C17(Check):
     def sample(self, case, impl):
         return {"label": case.get("label"), "cfg": {k: (bitsf(v) if isinstance(v, str) else [bitsf(x) for x in v])
                                                     for k, v in case["cfg"].items()},
-                "ops": [[o[0]] + ([list(bitsv3(o[1]))] if len(o) > 1 else []) for o in case["ops"][:12]],
+                "ops": [[o[0]] + ([list(bitsv3(o[1])) if o[0] == "tel" else o[1]] if len(o) > 1 else []) for o in case["ops"][:12]],
                 "results": impl["results"][:12]}
 
     def stats(self, case, impl, acc):
@@ -913,6 +1015,12 @@ class C17(Check):
             acc[k] = acc.get(k, 0) + v
         inc("histories")
         inc("ops", len(case["ops"]))
+        if case.get("hooked"):
+            inc("histories_with_reentrant_foreign_handlers")
+            for res in impl["results"]:
+                for ev in res.get("events", []):
+                    if ev[0] == "end":
+                        inc("reentrant_" + ev[1])
         cfg = case["cfg"]
         if any(cfg[a][0] == cfg[a][1] for a in "xyz"):
             inc("box_with_degenerate_axis")
@@ -932,6 +1040,8 @@ class C17(Check):
             elif op[0] == "finish":
                 inc("finish_ongoing" if ongoing else "finish_idle")
                 ongoing = False
+            elif op[0] == "tel" and case.get("hooked"):
+                inc("tel_with_foreign_handlers_" + ("commands" if res["cmds"] else "quiet"))
             elif op[0] == "tel":
                 inc(("tel_trip_" if ongoing else "tel_idle_") + ("redraw" if res["cmds"] else "quiet"))
             elif op[0] in ("ongoing", "target") and not seen_init:
